@@ -48,7 +48,7 @@ void unchanged(const std::string &key, const Spline<Real, o> &s, const Snap<o> &
 // behaviour equals that of a freshly constructed object with the same public state
 // hist 0: evaluation observers; hist 1: predicate observers (kept apart so that their forks do not multiply)
 template <size_t o>
-void behaves_like_fresh(const std::string &key, const Spline<Real, o> &s, const Real &x2, int hist) {
+void behaves_like_fresh(const std::string &key, const Spline<Real, o> &s, const Real &x2, int hist, bool derived = false) {
   auto &E = Engine::get();
   auto f = fresh(s);
   if (hist == 0) {
@@ -65,7 +65,7 @@ void behaves_like_fresh(const std::string &key, const Spline<Real, o> &s, const 
     if (s.isZero() == f.isZero()) stats().discharged++; else E.fail(key + "/iszero-like-fresh", "structure", "isZero() depends on history");
   }
   // derived quantities (no new forks): forms, operator application, arithmetic with a partner on the object's grid
-  if (hist == 1) {
+  if (hist == 1 && derived) {
     size_t n = s.getSupport().getGrid().size();
     auto q = mkspline<1>(s.getSupport().getGrid(), 0, n, "q");
     E.prove(key + "/scalar-product-like-fresh", sym::eq(ScalarProduct{}(s, q), ScalarProduct{}(f, q)));
@@ -125,7 +125,7 @@ void const_ops_case(size_t n, std::pair<size_t, size_t> wa, std::pair<size_t, si
   unchanged("after-const-history/a", a, sa, g);
   unchanged("after-const-history/b", b, sb, g);
   unchanged("after-const-history/b2", b2, sb2, g);
-  behaves_like_fresh("after-const-history/a", a, x2, hist);
+  behaves_like_fresh("after-const-history/a", a, x2, hist, true);
   if (stats().paths == 0 && hist == 0) E.control("perturbed-observation", sym::eq(a(x2), fresh(a)(x2) + Real(1)));
   behaves_like_fresh("after-const-history/b2", b2, x2, hist);
   if (hist == 1) {
@@ -177,8 +177,8 @@ void mutation_case(size_t n, std::pair<size_t, size_t> wa, std::pair<size_t, siz
   unchanged(key + "/original-after-mutating-copy", a, sa, g);
   if (mut != 5) unchanged(key + "/operand-after-mutating-copy", b, sb, g);
   unchanged(key + "/earlier-result-after-mutating-copy", r, sr, g);
-  behaves_like_fresh(key + "/original-after-mutating-copy", a, x2, hist);
-  behaves_like_fresh(key + "/mutated-copy", c, x2, hist);
+  behaves_like_fresh(key + "/original-after-mutating-copy", a, x2, hist, true);
+  behaves_like_fresh(key + "/mutated-copy", c, x2, hist, true);
   behaves_like_fresh(key + "/earlier-result", r, x2, hist);
   if (mut == 5) behaves_like_fresh(key + "/moved-from", b, x2, hist);
   // now mutate the original; the (already mutated) copy must not notice
